@@ -94,7 +94,8 @@ Definition deferred_slots : list str := [
 Definition K (i : nat) : ev := EAttr (nth i known_names []) false [].   (* a parsed, named attribute *)
 Definition U (name : str) (body : bytes) : ev := EAttr name true body.  (* an attribute delivered as raw bytes *)
 (* a parsed, named attribute with the VALUE the visitor was handed (annotations as element_value trees, AnnotationDefault,
-   Signature, SourceFile, and the attributes that are rows of pool indices: InnerClasses, EnclosingMethod, NestHost, …): the tree flattened as [canon_annotations] / [canon_value] flatten it — strings as a checksum of
+   Signature, SourceFile, the attributes that are rows of pool indices: InnerClasses, EnclosingMethod, NestHost, …, and type
+   annotations: target_type, target_info — labels as bytecode offsets —, type_path, annotation): the tree flattened as [canon_annotations] / [canon_value] flatten it — strings as a checksum of
    their modified-UTF-8 bytes, numeric constants as the bits of the narrowed value.  It travels in the payload field. *)
 Definition KV (i : nat) (v : list N) : ev := EAttr (nth i known_names []) false v.
 Definition Fl := EFlags.
@@ -178,8 +179,8 @@ Definition resolver_of (p : pool) (rp : list (N * (N * bytes))) : resolver :=
        (ref_of p rp).
 (* the pools of the class at the head of the stream *)
 Record pools := mkPools { pp_utf8 : pool; pp_rs : resolver }.
-Definition value_of (pp : pools) (name : str) (body : bytes) : option (list N) :=
-  attr_value xtable_gen vnames_gen (pp_rs pp) name false body.
+Definition value_of (pp : pools) (loc : N) (name : str) (body : bytes) : option (list N) :=
+  attr_value xtable_gen vnames_gen (pp_rs pp) loc name false body.
 
 Definition LVT : str := [76;111;99;97;108;86;97;114;105;97;98;108;101;84;97;98;108;101].             (* LocalVariableTable *)
 Definition LVTT : str := [76;111;99;97;108;86;97;114;105;97;98;108;101;84;121;112;101;84;97;98;108;101]. (* LocalVariableTypeTable *)
@@ -198,17 +199,19 @@ Definition rows_eqb : list row -> list row -> bool := list_eqb (list_eqb N.eqb).
    access flags, the bytes of bodies that the visitor receives parsed, and which attributes the rows
    of a deferred table were grouped in / a frame came from.  The ROWS of the line-number and
    local-variable tables and of the exception table are compared value by value, in order. *)
-Fixpoint ev_eqb (pp : pools) (a b : ev) : bool :=
+(* [loc]: where the events stand (0 class, 1 field, 2 method, 3 Code, 4 record component) — the value of a type annotations
+   attribute is parsed with the target types of its location *)
+Fixpoint ev_eqb (pp : pools) (loc : N) (a b : ev) : bool :=
   let p := pp_utf8 pp in
-  let fix l_eqb (x y : list ev) : bool :=
+  let fix l_eqb (lc : N) (x y : list ev) : bool :=
     match x, y with
     | [], [] => true
-    | e :: x', f :: y' => ev_eqb pp e f && l_eqb x' y'
+    | e :: x', f :: y' => ev_eqb pp lc e f && l_eqb lc x' y'
     | _, _ => false
     end in
-  let o_eqb (x y : option (list ev)) : bool :=
+  let o_eqb (lc : N) (x y : option (list ev)) : bool :=
     match x, y with
-    | Some x', Some y' => l_eqb x' y'
+    | Some x', Some y' => l_eqb lc x' y'
     | None, None => true
     | _, _ => false
     end in
@@ -218,7 +221,7 @@ Fixpoint ev_eqb (pp : pools) (a b : ev) : bool :=
       && (if r then str_eqb body v'
           else match v' with
                | [] => true               (* the harness reports no value for this attribute: compared by name only *)
-               | _ => match value_of pp n body with Some v => str_eqb v v' | None => false end
+               | _ => match value_of pp loc n body with Some v => str_eqb v v' | None => false end
                end)
   | EFlags d s, EFlags d' s' => Bool.eqb d d' && Bool.eqb s s'
   | EDeferred x srcs, EDeferred y hs =>
@@ -226,10 +229,10 @@ Fixpoint ev_eqb (pp : pools) (a b : ev) : bool :=
   | ECodeDeclined _, ECodeDeclined _ => true
   | ECode _ ms ml f xr es, ECode _ ms' ml' f' xr' es' =>
       N.eqb ms ms' && N.eqb ml ml' && Bool.eqb (match f with [] => false | _ => true end) (match f' with [] => false | _ => true end)
-      && (rows_eqb xr' WILD || rows_eqb (norm_exc xr) xr') && l_eqb es es'
-  | ERc _ _ _ _ es, ERc _ _ _ _ es' => o_eqb es es'
-  | EField _ _ _ _ es, EField _ _ _ _ es' => o_eqb es es'
-  | EMethod _ _ _ _ es, EMethod _ _ _ _ es' => o_eqb es es'
+      && (rows_eqb xr' WILD || rows_eqb (norm_exc xr) xr') && l_eqb 3 es es'
+  | ERc _ _ _ _ es, ERc _ _ _ _ es' => o_eqb 4 es es'
+  | EField _ _ _ _ es, EField _ _ _ _ es' => o_eqb 1 es es'
+  | EMethod _ _ _ _ es, EMethod _ _ _ _ es' => o_eqb 2 es es'
   | _, _ => false
   end.
 
@@ -305,7 +308,7 @@ Definition norm (e : ev) : ev :=
   | e => e
   end.
 
-Definition trace_eqb (pp : pools) (a b : option (list ev)) : bool := opt_eqb (list_eqb (ev_eqb pp)) (option_map (map norm) a) b.
+Definition trace_eqb (pp : pools) (a b : option (list ev)) : bool := opt_eqb (list_eqb (ev_eqb pp 0)) (option_map (map norm) a) b.
 Definition pool_at (s : bytes) : pools :=
   let p := match read_header s with Ok (h, _) => h_pool h | Err => [] end in
   mkPools p (resolver_of p (rawpool_at s)).
